@@ -9,8 +9,8 @@ from .. import exact as X
 
 MANIFEST = dict(
     technique="Lean 4 proof about ONE generic transliteration of day_frac/two_sum/two_product/split: (a) under the standard model of binary64 and astropy's error-free two_sum contract, the add/subtract/construct path returns an integer count, |count+frac-(v1+v2)| <= 2^-52 and |frac| <= 1/2+2^-49; (b) exact refinement for rn=id; (c) the real/imaginary axis algebra of from_angles (i*i=-1); (d) trig/exp depend on the fraction only — tied by BIT-EXACT comparison of the same Lean definitions run at hardware Float (and at an exact rational rn53 rounding model, cross-checked) with NumPy on every generated case, plus an exact-Fraction property oracle on every Phase operation and operand kind",
-    level_text="kernel theorem for add/sub/neg/construct under explicit hypotheses (standard model, EFT contract); axis algebra and fraction-only trig fully proved; the multiply/divide paths (two_product) are NOT proved (C07_dayfrac_mul/div absent: partial) — they are validated bit-for-bit against the Lean Float/rn53 instances and against exact rational arithmetic at the 2^-52 bound on every case; operand-kind dispatch (never degrading to a single double) is validated on the full kind matrix, not proved",
-    level_note="PARTIAL: (1) IEEE-754 hardware satisfying the standard model and astropy's two_sum/two_product being error-free are hypotheses, validated on every run by the exact rn53 instance; (2) mul/div error bound and the ufunc dispatch table are validated, not proved. Trusted: Lean kernel + Mathlib, Lean compiler (Float ops = C doubles), hand model PbModel/DayFrac.lean tied bit-exactly",
+    level_text="kernel theorem for add/sub/neg/construct under explicit hypotheses (standard model, EFT contract); axis algebra and fraction-only trig fully proved; the multiply and divide paths are proved too (C07_dayfrac_mul: within 2^-51 of the exact product; C07_dayfrac_div: within 2^-50 of the exact quotient, for results up to 2^52-2, adding the error-free two_product contract) and validated bit-for-bit against the Lean Float/rn53 instances and against exact rational arithmetic at the property's 2^-52 bound on every case; operand-kind dispatch (never degrading to a single double) is validated on the full kind matrix, not proved",
+    level_note="PARTIAL: (1) IEEE-754 hardware satisfying the standard model and astropy's two_sum/two_product being error-free are hypotheses, validated on every run by the exact rn53 instance; (2) the proved mul/div constants (2^-51, 2^-50) are worst-case term-by-term bounds, looser than the 2^-52 the harness validates; floor-division/remainder and the ufunc dispatch table are validated, not proved. Trusted: Lean kernel + Mathlib, Lean compiler (Float ops = C doubles), hand model PbModel/DayFrac.lean tied bit-exactly",
 )
 
 
@@ -29,7 +29,7 @@ EPS = F(1, 2 ** 52)
 class Prop(PropBase):
     id = "C07"
     lean_targets = ["PbProps.C07"]
-    theorems = ["Pb.C07." + t for t in ("C07_dayfrac_add", "C07_exact_refines", "C07_axis_mul", "C07_axis_div",
+    theorems = ["Pb.C07." + t for t in ("C07_dayfrac_add", "C07_dayfrac_mul", "C07_dayfrac_div", "C07_exact_two_product", "C07_exact_refines", "C07_axis_mul", "C07_axis_div",
                                         "C07_trig_frac_only")]
     trusted_base = ["PbModel/DayFrac.lean (generic transliteration; Float instance bit-compared with NumPy, rn53 instance "
                     "cross-checked)", "IEEE-754 binary64 round-to-nearest-even satisfies the standard model (hypothesis)",
@@ -94,6 +94,16 @@ class Prop(PropBase):
                     d = max(abs(v1), 1.0)
                 c["d"] = hx(d)
             yield c
+        # the error-free-transformation contracts (hypotheses of the theorems) on concrete operands
+        for _ in range(600 if quick else 40000):
+            r = rng.random()
+            if r < 0.4:
+                a, b = self._count(rng) + self._frac(rng), self._factor(rng)
+            elif r < 0.7:
+                a, b = rng.uniform(-1, 1) * 2.0 ** rng.randint(-40, 52), rng.uniform(-1, 1) * 2.0 ** rng.randint(-40, 40)
+            else:
+                a, b = float(rng.randint(-2**52, 2**52)), rng.choice([0.5, -0.5, 1.0, 3.0, 1e-3, 2.0 ** -30, rng.uniform(-0.5, 0.5)])
+            yield {"op": "eft", "a": hx(a), "b": hx(b)}
         ops = ["construct1", "construct2", "add", "radd", "sub", "rsub", "neg", "pos", "abs", "mul", "rmul", "div",
                "floordiv", "mod", "divmod", "trig"]
         kinds = ["pyint", "pyfloat", "npfloat64", "npfloat32", "npint64", "zerod", "nd", "list", "quantity", "phase", "imag"]
@@ -177,6 +187,13 @@ class Prop(PropBase):
 
     def run_code(self, case):
         np, u, ph = self.np, self.u, self.ph
+        if case["op"] == "eft":
+            from astropy.time.utils import two_sum, two_product
+            a, b = np.float64(unhx(case["a"])), np.float64(unhx(case["b"]))
+            with np.errstate(all="ignore"):
+                s1, s2 = two_sum(a, b)
+                p1, p2 = two_product(a, b)
+            return {"sum": [hx(float(s1)), hx(float(s2))], "prod": [hx(float(p1)), hx(float(p2))]}
         if case["op"] == "kernel":
             v1, v2 = np.float64(unhx(case["v1"])), np.float64(unhx(case["v2"]))
             f = None if case["f"] is None else np.float64(unhx(case["f"]))
@@ -288,6 +305,8 @@ class Prop(PropBase):
         return None
 
     def model_requests(self, case, code):
+        if case["op"] == "eft":
+            return [f"c07 eft {case['a']} {case['b']}"]
         if case["op"] == "kernel":
             return [f"c07 dayfrac {case['v1']} {case['v2']} {case['f'] or '_'} {case['d'] or '_'}"]
         k = self._kernel_call(case, code)
@@ -301,6 +320,9 @@ class Prop(PropBase):
         return reqs
 
     def model_result(self, case, replies):
+        if case["op"] == "eft":
+            t = replies[0].split()
+            return {"sum": t[0:2], "prod": t[2:4], "sum_exact": t[4] == "1", "prod_exact": t[5] == "1", "rn53_agrees": t[6] == "1"}
         out = {}
         for r in replies:
             t = r.split()
@@ -311,6 +333,13 @@ class Prop(PropBase):
         return out
 
     def agree(self, case, code, model):
+        if case["op"] == "eft":
+            # astropy's two_sum / two_product = the generic transliteration at hardware Float, bit for bit; the rational rn53
+            # instance agrees and satisfies the error-free contracts exactly (x + y = a + b, x + y = a * b over Q)
+            same = model["sum"] == code["sum"] and model["prod"] == code["prod"]
+            if not self._normal_range(case["a"], case["b"]) or not self._normal_range(*code["prod"]):
+                return same
+            return same and model["sum_exact"] and model["prod_exact"] and model["rn53_agrees"]
         if case["op"] == "phase" and case["fn"] in ("floordiv", "mod", "divmod") and self._bval(case) == 0:
             return True                     # zero divisor: NumPy inf/nan semantics, outside the model
         if "err" in code:
@@ -362,6 +391,15 @@ class Prop(PropBase):
         return None
 
     def spec_violation(self, case, code):
+        if case["op"] == "eft":
+            a, b = F(unhx(case["a"])), F(unhx(case["b"]))
+            s1, s2 = (F(unhx(h)) for h in code["sum"])
+            p1, p2 = (F(unhx(h)) for h in code["prod"])
+            if s1 + s2 != a + b:
+                return f"two_sum({unhx(case['a'])!r}, {unhx(case['b'])!r}) is not error-free"
+            if self._normal_range(case["a"], case["b"]) and self._normal_range(*code["prod"]) and p1 + p2 != a * b:
+                return f"two_product({unhx(case['a'])!r}, {unhx(case['b'])!r}) is not error-free"
+            return None
         if case["op"] == "kernel":
             if "err" in code:
                 return f"day_frac raised {code['err']}"
@@ -442,6 +480,8 @@ class Prop(PropBase):
         return case
 
     def tags(self, case, code):
+        if case["op"] == "eft":
+            return ["eft"]
         if case["op"] == "kernel":
             return ["kernel:" + case["kind"]]
         return ["phase:" + case["fn"], "b:" + case["bkind"], "imag" if case["imag_a"] else "real"]
